@@ -39,4 +39,6 @@ Act_C17 == [][IsStep => C17_Step(w, ev', w')]_vars
 Act_C18 == [][IsStep => C18_Step(w, ev', w')]_vars
 Act_C19 == [][IsStep => C19_Step(w, ev', w', obs, obs')]_vars
 Act_C20 == [][IsStep => C20_Step(w, ev', w')]_vars
+\* exploration formulas (./check explore ...), not listed properties
+Act_E2  == [][IsStep => E2_FullValue(w, ev', w', g)]_vars
 =============================================================================
